@@ -306,8 +306,9 @@ def scan_judge(mp_rel: str, k: int, full, flat):
     _, fn, fi, fh = flat
     if fn != want_n:
         return ("MISMATCH", f"modules {sorted(want_n)}", f"modules {sorted(fn)}")
-    # an import from a truncated module to its own ancestor / descendant coincides with a hierarchy pair
-    dc = {(u, v) for u, v in want_i | fi if is_anc_or_self(u, v) or is_anc_or_self(v, u)}
+    # an import from a truncated package to its own DIRECT child coincides with a hierarchy pair (one edge per ordered
+    # node pair); every other import - also child -> ancestor and ancestor -> deeper descendant - is a separate edge
+    dc = {(u, v) for u, v in want_i | fi if v.rsplit(".", 1)[0] == u}
     if (fi - dc) != (want_i - dc):
         return ("MISMATCH", f"imports {sorted(want_i - dc)}", f"imports {sorted(fi - dc)}")
     if (fh | {(u, v) for u, v in dc}) != (want_h | {(u, v) for u, v in dc}) and fh - dc != want_h - dc:
